@@ -36,6 +36,7 @@ CONSTANTS Deviations,      \* subset of AllDevs: what the implementation model d
           InMenu,          \* graph inputs a derivation may use (subset of 1..4: x, m, f, c)
           Trips,           \* trip counts a Loop may be given (subset of 0..3)
           FnMenu,          \* functions a derivation may call / inline (indices into Funcs)
+          CarryMenu,       \* literals usable as a second loop-carried / scan-state operand
           LitOnly,         \* TRUE: only op calls with a literal operand (focused configs)
           LitMenu,         \* literals a derivation may use (subset of DOMAIN L)
           Kinds,           \* subset of {"if","loop","scan","push","call","inline","ospec","pos"}
@@ -104,7 +105,7 @@ NumV == {v \in Vis : D(v) \in {"i64", "f32"}}
 BoolV == {v \in Vis : D(v) = "bool"}
 \* the counter used in generated names: the graph's own node count nn (code) / one counter gn shared through the root (design)
 NoBlk == [ins |-> <<>>, body |-> <<>>, res |-> <<>>, g |-> <<>>]
-NoPend == [k |-> 0, a |-> 0, b |-> 0, trip |-> 0, ins |-> <<>>, blk |-> NoBlk]
+NoPend == [k |-> 0, a |-> 0, b |-> 0, trip |-> 0, l2 |-> "", ins |-> <<>>, blk |-> NoBlk]
 Val(dt, tk, nm, dn, ev, fr, hid) == [dt |-> dt, tk |-> tk, nm |-> nm, dn |-> dn, ev |-> ev, fr |-> fr, hid |-> hid]
 
 -----------------------------------------------------------------------------
@@ -209,18 +210,21 @@ SetAll0(env, vs, ts) == [v \in DOMAIN env |-> IF \E i \in 1..Len(vs) : vs[i] = v
 SetAll(env, vs, ts) == IF \E i \in 1..Len(ts) : ~OkT(ts[i]) THEN Poison(SetAll0(env, vs, ts)) ELSE SetAll0(env, vs, ts)
 ArgE(s, i, env) == CASE s.args[i].a = "v" -> env[s.args[i].v] [] s.args[i].a = "l" -> LitT(s.args[i].l, s.pdt[i]) [] OTHER -> NoT
 EvalStmts(ss, env) == IF ss = <<>> \/ Poisoned(env) THEN env ELSE EvalStmts(Tail(ss), EvalStmt(Head(ss), env))
-\* Loop: blk.ins = <<i, cnd, s>>, blk.res = <<cnd_out, s_out>> or <<cnd_out, s_out, scan>>; result <<final, scans, bad>>
-LoopIter(blk, env, it, trip, cur, acc) ==
-  IF it >= trip THEN <<cur, acc, FALSE>>
-  ELSE LET e1 == EvalStmts(blk.body, SetAll0(env, blk.ins, <<Scalar("i64", it), Scalar("bool", 1), cur>>))
-       IN IF Poisoned(e1) THEN <<ERR, <<>>, TRUE>>
-          ELSE LoopIter(blk, env, it + 1, trip, e1[blk.res[2]], IF Len(blk.res) = 3 THEN Append(acc, e1[blk.res[3]]) ELSE acc)
-\* Scan: blk.ins = <<st, xi>>, blk.res = <<st_out, scan>>
-ScanIter(blk, env, it, xs, cur, acc) ==
-  IF it >= xs.shape[1] THEN <<cur, acc, FALSE>>
-  ELSE LET e1 == EvalStmts(blk.body, SetAll0(env, blk.ins, <<cur, RowT(xs, it)>>))
-       IN IF Poisoned(e1) THEN <<ERR, <<>>, TRUE>>
-          ELSE ScanIter(blk, env, it + 1, xs, e1[blk.res[1]], Append(acc, e1[blk.res[2]]))
+\* Loop: blk.ins = <<i, cnd>> \o carried,  blk.res = <<cnd_out>> \o carried outs [\o <<scan>>];  result <<finals, scans, bad>>
+LoopIter(blk, env, it, trip, curs, acc) ==
+  IF it >= trip THEN <<curs, acc, FALSE>>
+  ELSE LET nc2 == Len(blk.ins) - 2
+           e1 == EvalStmts(blk.body, SetAll0(env, blk.ins, <<Scalar("i64", it), Scalar("bool", 1)>> \o curs))
+       IN IF Poisoned(e1) THEN <<curs, <<>>, TRUE>>
+          ELSE LoopIter(blk, env, it + 1, trip, [j \in 1..nc2 |-> e1[blk.res[1 + j]]],
+                        IF Len(blk.res) > 1 + nc2 THEN Append(acc, e1[blk.res[Len(blk.res)]]) ELSE acc)
+\* Scan: blk.ins = states \o <<xi>>,  blk.res = state outs \o <<scan>>
+ScanIter(blk, env, it, xs, curs, acc) ==
+  IF it >= xs.shape[1] THEN <<curs, acc, FALSE>>
+  ELSE LET ns == Len(blk.ins) - 1
+           e1 == EvalStmts(blk.body, SetAll0(env, blk.ins, Append(curs, RowT(xs, it))))
+       IN IF Poisoned(e1) THEN <<curs, <<>>, TRUE>>
+          ELSE ScanIter(blk, env, it + 1, xs, [j \in 1..ns |-> e1[blk.res[j]]], Append(acc, e1[blk.res[ns + 1]]))
 EvalStmt(s, env) ==
   CASE s.kind = "op" -> SetAll(env, s.outs, Sem(s.op, [i \in 1..Len(s.args) |-> ArgE(s, i, env)], s.at))
     [] s.kind \in {"call", "inline"} -> SetAll(env, s.outs, FSem(Funcs[s.fn].tag, [i \in 1..Len(s.args) |-> ArgE(s, i, env)],
@@ -229,12 +233,13 @@ EvalStmt(s, env) ==
                             b == IF c.data[1] # 0 THEN s.subs[1] ELSE s.subs[2]
                             e1 == EvalStmts(b.body, env)
                         IN IF Poisoned(e1) THEN Poison(env) ELSE SetAll(env, s.outs, <<e1[b.res[1]]>>)
-    [] s.kind = "loop" -> LET r == LoopIter(s.subs[1], env, 0, L[s.args[1].l].data[1], env[s.args[3].v], <<>>) IN
+    [] s.kind = "loop" -> LET nc2 == Len(s.args) - 2
+                              r == LoopIter(s.subs[1], env, 0, L[s.args[1].l].data[1], [j \in 1..nc2 |-> ArgE(s, j + 2, env)], <<>>) IN
          IF r[3] THEN Poison(env)
-         ELSE IF Len(s.outs) = 1 THEN SetAll(env, s.outs, <<r[1]>>)
-         ELSE SetAll(env, s.outs, <<r[1], StackT(r[2])>>)
-    [] s.kind = "scan" -> LET r == ScanIter(s.subs[1], env, 0, env[s.args[2].v], env[s.args[1].v], <<>>) IN
-         IF r[3] THEN Poison(env) ELSE SetAll(env, s.outs, <<r[1], StackT(r[2])>>)
+         ELSE SetAll(env, s.outs, IF Len(s.outs) > nc2 THEN Append(r[1], StackT(r[2])) ELSE r[1])
+    [] s.kind = "scan" -> LET ns == Len(s.args) - 1
+                              r == ScanIter(s.subs[1], env, 0, env[s.args[Len(s.args)].v], [j \in 1..ns |-> ArgE(s, j, env)], <<>>) IN
+         IF r[3] THEN Poison(env) ELSE SetAll(env, s.outs, Append(r[1], StackT(r[2])))
     [] OTHER -> env                      \* push / pop: no meaning
 EnvNow(vs, k) == [v \in 1..(Len(vs) + 1) |-> IF v <= Len(vs) THEN vs[v].ev[k] ELSE OKMARK]
 
@@ -374,39 +379,52 @@ CloseElse(r) ==
   /\ \E n \in {CloseElseNew(r)} : n.ok /\ vals' = n.vals /\ cache' = n.cache /\ gn' = n.gn /\ frames' = n.frames
   /\ UNCHANGED <<scope, nc, fidc, stage, flags, out>>
 
-\* Loop(trip, True, init): body (it, cn, st) -> (Identity(cn), new st [, scan output])
-OpenLoop(trip, init) ==
+\* Loop(trip, True, init [, literal]): body (it, cn, st [, s2]) -> (Identity(cn), new st [, Identity(s2)] [, scan output]).
+\* A second loop-carried operand is a Python LITERAL (a counter next to an accumulator): v_initial is a heterogeneous
+\* variadic formal, so the literal is promoted with its own natural dtype, never like the first carried operand.
+CarryLits == CarryMenu \cap {"i0", "i1", "f2", "bT"}
+Carry2(l2, kk, f, nm) == IF l2 = "" THEN <<>>
+                         ELSE <<Val(DefaultDt(l2), TRUE, nm \o kk, nm \o kk, [k \in 1..K |-> LitT(l2, DefaultDt(l2))], f, FALSE)>>
+OpenLoop(trip, init, l2) ==
   /\ MayOpen("loop") /\ init \in Vis
   /\ LET f == fidc + 1 kk == ToString(nc)
          nv == <<Val("i64", TRUE, "it" \o kk, "it" \o kk, [k \in 1..K |-> Scalar("i64", 0)], f, FALSE),
                  Val("bool", TRUE, "cn" \o kk, "cn" \o kk, [k \in 1..K |-> Scalar("bool", 1)], f, FALSE),
-                 Val(D(init), TRUE, "st" \o kk, "st" \o kk, vals[init].ev, f, FALSE)>>
+                 Val(D(init), TRUE, "st" \o kk, "st" \o kk, vals[init].ev, f, FALSE)>> \o Carry2(l2, kk, f, "s2")
          b == Len(vals)
      IN /\ vals' = vals \o nv
-        /\ frames' = Append(frames, NewFrame("loop", [NoPend EXCEPT !.k = nc, !.a = init, !.trip = trip, !.ins = <<b + 1, b + 2, b + 3>>]))
+        /\ frames' = Append(frames, NewFrame("loop", [NoPend EXCEPT !.k = nc, !.a = init, !.trip = trip, !.l2 = l2, !.ins = [j \in 1..Len(nv) |-> b + j]]))
   /\ fidc' = fidc + 1 /\ nc' = nc + 1
   /\ UNCHANGED <<scope, cache, gn, stage, flags, out>>
+\* emit Identity(v) in the current body graph (the returned tuple evaluates it): returns [st: threaded pieces, v: new value id, stmt]
+IdNode(fr, vs, cch, g, v, k) ==
+  LET ia == <<AV(v)>>
+      st1 == AdaptArgs(Sigs["Identity"], ia, 1, St0(fr, vs, cch, g))
+      e1 == EmitNode("Identity", "Identity", "", st1, 1, DefSpec, TRUE, <<vs[v].ev>>, <<>>)
+  IN [e |-> e1, v |-> e1.ov[1], stmt |-> Stmt(k, "op", "Identity", ia, <<"">>, NoAt, e1.ov, DefSpec, 0, <<>>, 0, "", "")]
 CloseLoopNew(r, sc) ==
   LET p == Cur.pend
       kk == ToString(p.k)
-      \* the returned tuple evaluates op.Identity(cn) first: one more node of the body graph
-      ia == <<AV(p.ins[2])>>
-      st1 == AdaptArgs(Sigs["Identity"], ia, 1, St0(Cur, vals, cache, gn))
-      e1 == EmitNode("Identity", "Identity", "", st1, 1, DefSpec, TRUE, <<vals[p.ins[2]].ev>>, <<>>)
-      co == e1.ov[1]
-      idstmt == Stmt(p.k, "op", "Identity", ia, <<"">>, NoAt, e1.ov, DefSpec, 0, <<>>, 0, "", "")
-      res == IF sc = 0 THEN <<co, r>> ELSE <<co, r, sc>>
-      v1 == RenameV(RenameV(e1.vals, co, "co" \o kk), r, "so" \o kk)
-      v2 == IF sc = 0 THEN v1 ELSE RenameV(v1, sc, "sc" \o kk)
-      blk == Blk(p.ins, Append(Cur.stmts, idstmt), res, e1.nodes)
-      ev == [k \in 1..K |-> LoopIter(blk, EnvNow(v2, k), 0, p.trip, vals[p.a].ev[k], <<>>)]
-      ot == IF sc = 0 THEN <<[k \in 1..K |-> ev[k][1]]>>
-            ELSE <<[k \in 1..K |-> ev[k][1]], [k \in 1..K |-> IF ev[k][3] THEN ERR ELSE StackT(ev[k][2])]>>
-      args == <<AL("i" \o ToString(p.trip)), AL("bT"), AV(p.a)>>
-      os == IF sc = 0 THEN DefSpec ELSE [m |-> "cnt", names |-> <<>>]
+      two == p.l2 # ""
+      i1 == IdNode(Cur, vals, cache, gn, p.ins[2], p.k)                                      \* op.Identity(cn)
+      fr2 == [Cur EXCEPT !.nodes = i1.e.nodes, !.nn = i1.e.nn]
+      i2 == IF two THEN IdNode(fr2, i1.e.vals, i1.e.cache, i1.e.gn, p.ins[4], p.k) ELSE i1    \* op.Identity(s2)
+      co == i1.v
+      res == <<co, r>> \o (IF two THEN <<i2.v>> ELSE <<>>) \o (IF sc = 0 THEN <<>> ELSE <<sc>>)
+      v1 == RenameV(RenameV(i2.e.vals, co, "co" \o kk), r, "so" \o kk)
+      v1b == IF two THEN RenameV(v1, i2.v, "to" \o kk) ELSE v1
+      v2 == IF sc = 0 THEN v1b ELSE RenameV(v1b, sc, "sc" \o kk)
+      blk == Blk(p.ins, Cur.stmts \o <<i1.stmt>> \o (IF two THEN <<i2.stmt>> ELSE <<>>), res, i2.e.nodes)
+      inits == [k \in 1..K |-> <<vals[p.a].ev[k]>> \o (IF two THEN <<LitT(p.l2, DefaultDt(p.l2))>> ELSE <<>>)]
+      ev == [k \in 1..K |-> LoopIter(blk, EnvNow(v2, k), 0, p.trip, inits[k], <<>>)]
+      ncar == IF two THEN 2 ELSE 1
+      ot == [j \in 1..ncar |-> [k \in 1..K |-> IF ev[k][3] THEN ERR ELSE ev[k][1][j]]]
+            \o (IF sc = 0 THEN <<>> ELSE <<[k \in 1..K |-> IF ev[k][3] THEN ERR ELSE StackT(ev[k][2])]>>)
+      args == <<AL("i" \o ToString(p.trip)), AL("bT"), AV(p.a)>> \o (IF two THEN <<AL(p.l2)>> ELSE <<>>)
+      os == IF Len(ot) = 1 THEN DefSpec ELSE [m |-> "cnt", names |-> <<>>]
       ok == /\ \A k \in 1..K : SameTS(vals[r].ev[k], vals[p.a].ev[k])
             /\ \A i \in 1..Len(ot) : \A k \in 1..K : OkT(ot[i][k])
-      st == AdaptArgs(Sigs["Loop"], args, 1, St0(Parent, v2, e1.cache, e1.gn))
+      st == AdaptArgs(Sigs["Loop"], args, 1, St0(Parent, v2, i2.e.cache, i2.e.gn))
       e == EmitNode("Loop", "Loop", "", st, Len(ot), os, Tk(args) /\ ~Opaque(blk.body), ot, <<blk.g>>)
       stmt == Stmt(p.k, "loop", "Loop", args, Pdt(Sigs["Loop"], args), NoAt, e.ov, os, 0, <<StmtBlk(blk)>>, 0, "", "")
   IN IF ~ok THEN [ok |-> FALSE]
@@ -418,32 +436,39 @@ CloseLoop(r, sc) ==
   /\ \E n \in {CloseLoopNew(r, sc)} : n.ok /\ vals' = n.vals /\ cache' = n.cache /\ gn' = n.gn /\ frames' = n.frames
   /\ UNCHANGED <<scope, nc, fidc, stage, flags, out>>
 
-\* Scan(init, xs, num_scan_inputs=1): body (st, xi) -> (new st, scan output)
-OpenScan(init, xs) ==
+\* Scan(init [, literal], xs, num_scan_inputs=1): body (st [, s2], xi) -> (new st [, Identity(s2)], scan output)
+OpenScan(init, xs, l2) ==
   /\ MayOpen("scan") /\ init \in NumV /\ xs \in NumV /\ Rk(xs) >= 1 /\ Rk(init) <= 1
   /\ LET f == fidc + 1 kk == ToString(nc)
-         nv == <<Val(D(init), TRUE, "ss" \o kk, "ss" \o kk, vals[init].ev, f, FALSE),
-                 Val(D(xs), TRUE, "xi" \o kk, "xi" \o kk, [k \in 1..K |-> RowT(vals[xs].ev[k], 0)], f, FALSE)>>
+         nv == <<Val(D(init), TRUE, "ss" \o kk, "ss" \o kk, vals[init].ev, f, FALSE)>> \o Carry2(l2, kk, f, "s2")
+                \o <<Val(D(xs), TRUE, "xi" \o kk, "xi" \o kk, [k \in 1..K |-> RowT(vals[xs].ev[k], 0)], f, FALSE)>>
          b == Len(vals)
      IN /\ vals' = vals \o nv
-        /\ frames' = Append(frames, NewFrame("scan", [NoPend EXCEPT !.k = nc, !.a = init, !.b = xs, !.ins = <<b + 1, b + 2>>]))
+        /\ frames' = Append(frames, NewFrame("scan", [NoPend EXCEPT !.k = nc, !.a = init, !.b = xs, !.l2 = l2, !.ins = [j \in 1..Len(nv) |-> b + j]]))
   /\ fidc' = fidc + 1 /\ nc' = nc + 1
   /\ UNCHANGED <<scope, cache, gn, stage, flags, out>>
 CloseScanNew(r, sc) ==
   LET p == Cur.pend
       kk == ToString(p.k)
-      v2 == RenameV(RenameV(vals, r, "so" \o kk), sc, "sc" \o kk)
-      blk == Blk(p.ins, Cur.stmts, <<r, sc>>, Cur.nodes)
-      ev == [k \in 1..K |-> ScanIter(blk, EnvNow(v2, k), 0, vals[p.b].ev[k], vals[p.a].ev[k], <<>>)]
-      ot == <<[k \in 1..K |-> ev[k][1]], [k \in 1..K |-> IF ev[k][3] THEN ERR ELSE StackT(ev[k][2])]>>
-      args == <<AV(p.a), AV(p.b)>>
+      two == p.l2 # ""
+      i2 == IF two THEN IdNode(Cur, vals, cache, gn, p.ins[2], p.k)
+            ELSE [e |-> [vals |-> vals, cache |-> cache, gn |-> gn, nodes |-> Cur.nodes], v |-> 0, stmt |-> 0]
+      res == <<r>> \o (IF two THEN <<i2.v>> ELSE <<>>) \o <<sc>>
+      v1 == RenameV(RenameV(i2.e.vals, r, "so" \o kk), sc, "sc" \o kk)
+      v2 == IF two THEN RenameV(v1, i2.v, "to" \o kk) ELSE v1
+      blk == Blk(p.ins, Cur.stmts \o (IF two THEN <<i2.stmt>> ELSE <<>>), res, i2.e.nodes)
+      inits == [k \in 1..K |-> <<vals[p.a].ev[k]>> \o (IF two THEN <<LitT(p.l2, DefaultDt(p.l2))>> ELSE <<>>)]
+      ev == [k \in 1..K |-> ScanIter(blk, EnvNow(v2, k), 0, vals[p.b].ev[k], inits[k], <<>>)]
+      ns == IF two THEN 2 ELSE 1
+      ot == [j \in 1..ns |-> [k \in 1..K |-> IF ev[k][3] THEN ERR ELSE ev[k][1][j]]] \o <<[k \in 1..K |-> IF ev[k][3] THEN ERR ELSE StackT(ev[k][2])]>>
+      args == <<AV(p.a)>> \o (IF two THEN <<AL(p.l2)>> ELSE <<>>) \o <<AV(p.b)>>
       at == [num_scan_inputs |-> 1]
       os == [m |-> "cnt", names |-> <<>>]
       ok == /\ \A k \in 1..K : SameTS(vals[r].ev[k], vals[p.a].ev[k])
-            /\ \A i \in 1..2 : \A k \in 1..K : OkT(ot[i][k])
-      st == AdaptArgs(Sigs["Scan"], args, 1, St0(Parent, v2, cache, gn))
-      e == EmitNode("Scan", "Scan", "", st, 2, os, Tk(args) /\ ~Opaque(blk.body), ot, <<blk.g>>)
-      stmt == Stmt(p.k, "scan", "Scan", args, <<"", "">>, at, e.ov, os, 0, <<StmtBlk(blk)>>, 0, "", "")
+            /\ \A i \in 1..Len(ot) : \A k \in 1..K : OkT(ot[i][k])
+      st == AdaptArgs(Sigs["Scan"], args, 1, St0(Parent, v2, i2.e.cache, i2.e.gn))
+      e == EmitNode("Scan", "Scan", "", st, Len(ot), os, Tk(args) /\ ~Opaque(blk.body), ot, <<blk.g>>)
+      stmt == Stmt(p.k, "scan", "Scan", args, Pdt(Sigs["Scan"], args), at, e.ov, os, 0, <<StmtBlk(blk)>>, 0, "", "")
   IN IF ~ok THEN [ok |-> FALSE]
      ELSE [ok |-> TRUE, vals |-> e.vals, cache |-> e.cache, gn |-> e.gn,
            frames |-> PopTo([Parent EXCEPT !.nodes = e.nodes, !.nn = e.nn, !.stmts = Append(@, stmt)])]
@@ -655,9 +680,9 @@ Next == \/ \E i \in (IF Sim THEN 1..3 ELSE {1}) : DoCallOp
         \/ \E c \in Pick({v \in BoolV : Rk(v) = 0}) : OpenIf(c)
         \/ \E r \in Pick(IF stage = "build" /\ Cur.kind = "then" THEN Produced ELSE {}) : CloseThen(r)
         \/ \E r \in Pick(IF stage = "build" /\ Cur.kind = "else" THEN {r \in Produced : Compat(r, Cur.pend.blk.res[1])} ELSE {}) : CloseElse(r)
-        \/ Coin(2) /\ \E t \in Pick(Trips) : \E v \in Pick(Vis) : OpenLoop(t, v)
+        \/ Coin(2) /\ \E t \in Pick(Trips) : \E v \in Pick(Vis) : \E l2 \in Pick({""} \cup CarryLits) : OpenLoop(t, v, l2)
         \/ \E r \in Pick(IF stage = "build" /\ Cur.kind = "loop" THEN {r \in Produced : Compat(r, Cur.pend.a)} ELSE {}) : \E sc \in Pick({0} \cup Produced) : CloseLoop(r, sc)
-        \/ Coin(2) /\ \E a \in Pick(NumV) : \E b \in Pick(NumV) : OpenScan(a, b)
+        \/ Coin(2) /\ \E a \in Pick(NumV) : \E b \in Pick(NumV) : \E l2 \in Pick({""} \cup CarryLits) : OpenScan(a, b, l2)
         \/ \E r \in Pick(IF stage = "build" /\ Cur.kind = "scan" THEN {r \in Produced : Compat(r, Cur.pend.a)} ELSE {}) : \E sc \in Pick(Produced) : CloseScan(r, sc)
         \/ Coin(3) /\ DoCallFn
         \/ Coin(2) /\ DoInlineFn
